@@ -239,6 +239,24 @@ fn c04(ms: &ModelSnap, model: &AutosarModel, d: &Derived, out: &mut Vec<Viol>) {
                 0 => v(out, "C04", "index-missing-entry", format!("identifiable {} with path {:?} is not enumerated", n.name, n.cpath)),
                 k => v(out, "C04", "index-duplicate-entry", format!("identifiable {} with path {:?} is enumerated {k} times", n.name, n.cpath)),
             }
+            if n.e.item_name() != n.item_name {
+                v(out, "C04", "item-name-mismatch", format!("{}: item_name() = {:?}, SHORT-NAME text {:?}", n.name, n.e.item_name(), n.item_name));
+            }
+            {
+                // the nearest identifiable ancestor
+                let mut anc = n.parent;
+                while let Some(a) = anc {
+                    if ms.nodes[a].identifiable {
+                        break;
+                    }
+                    anc = ms.nodes[a].parent;
+                }
+                match (n.e.named_parent(), anc) {
+                    (Ok(Some(p)), Some(a)) if p == ms.nodes[a].e => {}
+                    (Ok(None), None) => {}
+                    (r, _) => v(out, "C04", "named-parent-mismatch", format!("{}: named_parent() = {:?}", n.name, r.map(|x| x.map(|e| e.element_name())))),
+                }
+            }
             if let Some(cp) = &n.cpath {
                 match n.e.path() {
                     Ok(p) if p == *cp => {}
@@ -373,6 +391,11 @@ fn c05(ms: &ModelSnap, model: &AutosarModel, d: &Derived, out: &mut Vec<Viol>) {
 
 fn c10(ms: &ModelSnap, _model: &AutosarModel, o: &CheckOpts, out: &mut Vec<Viol>) {
     let nfiles = ms.files.len();
+    for (i, f) in ms.files.iter().enumerate() {
+        if ms.files[..i].iter().any(|g| g.name == f.name) {
+            v(out, "C10", "duplicate-file-name", format!("two files of the model are named {}", f.name));
+        }
+    }
     for (i, n) in ms.nodes.iter().enumerate() {
         if n.local.contains(&usize::MAX) {
             v(out, "C10", "membership-foreign-file", format!("node {i} {} is attributed to a file that is not part of the model", n.name));
